@@ -87,6 +87,18 @@ CHECKS = {
         "components": {"real": REAL, "stub": STUB_SCHED + ["stream sink / source (simulated disk: chunking, EOF-with-data, write errors, short writes, read errors, truncation)"]},
         "assumptions": ["behavioural equality is sampled on the fixture's witness pool", "GKR metadata is not produced by the generator"],
     },
+    "C18": {
+        "engine": "c18",
+        "level": "fault_enumeration",
+        "rule": "one evaluation = one coordinator verification of a delivered phase-1 or phase-2 transcript judged against the lineage ledger (accept iff prefix of the honest chain), plus prove/verify with the sealed keys; "
+                "faults: none, drop, duplicate, swap, splice from a second ceremony of the same circuit, one encoded element replaced by another valid element (same message / same position of the other ceremony), truncation, missing tail; "
+                "contributors on zero / replayed entropy; a case = (curve, circuit, domain size, contributions per phase, fault tape)",
+        "quick": {"runs": 320, "budget_s": 220, "selftest_runs": 3, "params": {"slots": 12, "faults": 10}},
+        "thorough": {"runs": 12000, "budget_s": 2700, "selftest_runs": 4, "params": {"slots": 36, "faults": 16}},
+        "expect_probes": ["none", "drop", "duplicate", "reorder", "splice", "element_replaced", "truncation", "tail_dropped", "transcript_accepted", "transcript_rejected", "extracted_keys_prove_and_verify", "circuit_with_commitment"],
+        "components": {"real": REAL, "stub": ["the wire between contributors and coordinator (harness transport over the real serialised contributions)", "entropy source of the contributors (keyed PRF; zero and replayed-block faults)"]},
+        "assumptions": ["a byzantine contributor is modelled by recombination of honest elements (own message, other ceremony), not by fresh algebra", "domain sizes 2..64"],
+    },
     "C06": {
         "engine": "c06",
         "level": "exploration",
